@@ -35,3 +35,12 @@ META["C02"] = M(
          "complex Hermitian) and composites of them; every tower of .T/.H up to depth 3 (all 14 in thorough, 5 sampled in quick) "
          "judged through to_dense, right product and left products (1-D and 2-D) against the reference; A.T.T / A.H.H judged for "
          "matrix, shape, dtype and annotations; distinct = canonical structure + towers + operand dtype")
+
+META["C03"] = M(
+    shards={"quick": 16, "thorough": 64}, budget={"quick": 45, "thorough": 800},
+    floors={"quick": {"evals": 12000, "distinct": 1500}, "thorough": {"evals": 600000, "distinct": 60000}},
+    required=["value", "dtype", "shape", "result-kind", "product", "evaluates", "mismatch-rejected"],
+    rule="random algebraic expressions (depth 1-5) over {+,-,neg,c*,*c,/c,c/,@,kron,kronsum,block_diag,sum(),lazify,densify,"
+         "no_dispatch} applied to generated operator trees and plain arrays, scalars of type int/float/complex/numpy scalar/0-d "
+         "array incl. zero and negative; evaluated with cola's public API and, independently, on dense matrices; plus shape-"
+         "mismatched operand pairs that must raise; distinct = canonical expression structure (ops, kinds, shapes, dtypes, scalar types)")
